@@ -56,12 +56,98 @@ def registers_of(cls):
     return [r for r in regs if getattr(r, "_num", None) is not None]
 
 
-def build(cls, by_cls, rng, ints, thorough, depth=0):
-    """instances of `cls`: every value of each operand pool around a base tuple"""
+# displacements / nested immediates: the mod/disp8/disp32 and sign boundaries
+DISPS = [0, 1, -1, 127, 128, -128, -129, 2 ** 31 - 1, -2 ** 31]
+# mnemonics whose classes get the EXHAUSTIVE register x addressing-mode grid in every tier
+CORE = {"mov", "lea", "add", "sub", "cmp", "push", "pop", "movzx", "movsx", "and", "or", "xor", "test",
+        "ldr", "str", "ldrb", "strb", "ldrh", "strh", "lw", "sw", "lb", "sb", "movl", "movw", "movb"}
+
+
+def special_regs(regs):
+    """first, last and the registers whose low three number bits are 4 or 5 (ModRM/SIB special cases)"""
+    out = [r for k, r in enumerate(regs) if k in (0, len(regs) - 1) or (getattr(r, "num", 0) % 8) in (4, 5)]
+    return out or regs
+
+
+_grid_cache = {}
+
+
+def grid(cls, by_cls, rng, cap, depth):
+    """instances of a CONSTRUCTOR class (part of an operand): the full cartesian grid of all its registers
+    and DISPS; when that exceeds `cap`, immediates are cut to {0, 1, -128, 128}, then the second and later
+    register operands to `special_regs`, then sampled."""
+    import itertools
     from ppci.arch.registers import Register
+    key = (cls, cap)
+    if key in _grid_cache:
+        return _grid_cache[key]
     syn = getattr(cls, "syntax", None)
     if syn is None or depth > 3:
         return []
+    pools, kinds = [], []
+    for a in syn.formal_arguments:
+        c = a._cls
+        if a._value_map is not None:
+            c = tuple(a._value_map.keys())
+        if isinstance(c, tuple):
+            outs = []
+            for o in c:
+                outs += grid(o, by_cls, rng, max(8, cap // 8), depth + 1)
+            pools.append(outs); kinds.append("c")
+        elif isinstance(c, type) and issubclass(c, Register):
+            pools.append(registers_of(c)); kinds.append("r")
+        elif c is int:
+            pools.append(list(DISPS)); kinds.append("i")
+        elif c is str:
+            pools.append(["lbl"]); kinds.append("l")
+        elif isinstance(c, type) and c in by_cls:
+            pools.append(grid(c, by_cls, rng, max(8, cap // 8), depth + 1)); kinds.append("c")
+        else:
+            pools.append([]); kinds.append("?")
+    if any(not p for p in pools):
+        _grid_cache[key] = []
+        return []
+
+    def size(ps):
+        n = 1
+        for p in ps:
+            n *= len(p)
+        return n
+    if size(pools) > cap:
+        pools = [([0, 1, -128, 128] if k == "i" else p) for p, k in zip(pools, kinds)]
+    if size(pools) > cap:
+        seen_reg = False
+        np_ = []
+        for p, k in zip(pools, kinds):
+            if k == "r" and seen_reg:
+                p = special_regs(p)
+            if k == "r":
+                seen_reg = True
+            np_.append(p)
+        pools = np_
+    combos = itertools.product(*pools) if pools else [()]
+    combos = list(combos)
+    if len(combos) > cap:
+        combos = rng.sample(combos, cap)
+    out = []
+    for args in combos:
+        try:
+            out.append(cls(*args))
+        except Exception:  # noqa
+            pass
+    _grid_cache[key] = out
+    return out
+
+
+def build(cls, by_cls, rng, ints, thorough, depth=0):
+    """instances of the INSTRUCTION class `cls`: every value of each operand pool around two base tuples; a
+    constructor operand's pool is the concatenation of the grids of ALL its alternatives (every base
+    register, index register, displacement class)"""
+    from ppci.arch.registers import Register
+    syn = getattr(cls, "syntax", None)
+    if syn is None:
+        return []
+    cap = 4000 if thorough else 700
     pools = []
     for a in syn.formal_arguments:
         c = a._cls
@@ -70,17 +156,16 @@ def build(cls, by_cls, rng, ints, thorough, depth=0):
         if isinstance(c, tuple):
             outs = []
             for o in c:
-                outs += build(o, by_cls, rng, ints[:6], thorough, depth + 1)[: (6 if thorough else 3)]
+                outs += grid(o, by_cls, rng, cap, 1)
             pools.append(outs)
         elif isinstance(c, type) and issubclass(c, Register):
-            rs = registers_of(c)
-            pools.append(rs if depth == 0 else rs[:3])
+            pools.append(registers_of(c))
         elif c is int:
             pools.append(list(ints))
         elif c is str:
             pools.append(["lbl"])
         elif isinstance(c, type) and c in by_cls:
-            pools.append(build(c, by_cls, rng, ints[:6], thorough, depth + 1)[:6])
+            pools.append(grid(c, by_cls, rng, cap, 1))
         else:
             pools.append([])
     if any(not p for p in pools):
@@ -96,9 +181,7 @@ def build(cls, by_cls, rng, ints, thorough, depth=0):
             out.append(cls(*args))
         except Exception:  # noqa
             pass
-    bases = [[p[min(1, len(p) - 1)] for p in pools]]
-    if depth == 0:
-        bases.append([p[len(p) // 2] for p in pools])
+    bases = [[p[min(1, len(p) - 1)] for p in pools], [p[len(p) // 2] for p in pools]]
     for base in bases:
         add(base)
         for i, p in enumerate(pools):
@@ -106,12 +189,20 @@ def build(cls, by_cls, rng, ints, thorough, depth=0):
                 a = list(base)
                 a[i] = x
                 add(a)
-    if depth == 0 and thorough:
+    if thorough:
         for _ in range(40):
             add([rng.choice(p) for p in pools])
     if not syn.formal_arguments:
         add([])
     return out
+
+
+def is_core(cls):
+    syn = getattr(cls, "syntax", None)
+    if syn is None:
+        return False
+    first = next((e for e in syn.syntax if isinstance(e, str) and not e.isspace()), "")
+    return first in CORE
 
 
 PAD = 12
@@ -147,23 +238,24 @@ def disassemble_once(isa, cfg, byte_strings):
             continue
         m = re.match(r"(.*?)\s*[;#@|]+\s*encoding: \[(.*)\]", l)
         if m:
-            out.append((m.group(1).strip(), len(m.group(2).split(","))))
+            enc = bytes(int(x, 16) for x in m.group(2).split(","))
+            out.append((m.group(1).strip(), len(enc), enc))
         else:
-            out.append((l, -1))
+            out.append((l, -1, b""))
     if not out:
         raise RuntimeError(f"llvm-mc {isa}: no output; {p.stderr[-300:]}")
     stext = out[-1][0]
     groups, cur = [], []
-    for t, n in out:
+    for t, n, enc in out:
         if t == stext and n == len(sent):
             groups.append(cur); cur = []
         else:
-            cur.append((t, n))
+            cur.append((t, n, enc))
     if len(groups) != len(byte_strings):
         raise RuntimeError(f"llvm-mc {isa}: {len(groups)} groups for {len(byte_strings)} instances")
     res = []
     for bs, g in zip(byte_strings, groups):
-        if g and g[0][1] == len(bs):
+        if g and g[0][2] == bs:          # the first decoded instruction consumed exactly the instance's bytes
             res.append(g[0][0])
         else:
             res.append(None)
@@ -332,6 +424,11 @@ def split(isa, text, has_label):
     mn, rest = m.group(1).lower(), m.group(2)
     if isa == "mips":
         rest = re.sub(r"\$(\d+)", r"gpr\1", rest)           # $5 -> register 5
+    if isa == "x86_64":
+        rest = re.sub(r"\s+#\s.*$", "", rest)              # objdump's address comment of a rip-relative operand
+        rest = re.sub(r"<[^>]*>", " ", rest)
+        rest = re.sub(r"\b(byte|word|dword|qword|xmmword|tbyte|ptr)\b", " ", rest)
+        rest = rest.replace(" - ", " -").replace(" + ", " ")
     rest = rest.replace("#", " ").replace("$", " ")
     toks = []
     for t in TOK.findall(rest):
@@ -387,6 +484,12 @@ def compare(isa, ptext, ltext, has_label, vocab=frozenset()):
         return "unknown_mnemonic", f"{pm} / {lm}"
     if pt == lt:
         return "agree", ""
+    if isa == "x86_64" and len(pt) != len(lt):
+        # a zero displacement is printed by ppci ('[rbp, 0]') and omitted by llvm ('[rbp]')
+        pt = [t for t in pt if t != ("i", 0)]
+        lt = [t for t in lt if t != ("i", 0)]
+        if pt == lt:
+            return "agree", ""
     pr = [t for t in pt if t[0] == "r"]
     lr = [t for t in lt if t[0] == "r"]
     pi = [t[1] for t in pt if t[0] == "i"]
@@ -444,8 +547,12 @@ def check(ctx, only=None):
                 if not hasattr(cls, "tokens") or getattr(cls, "syntax", None) is None:
                     continue
                 insts = build(cls, by_cls, ctx.rng, ints, ctx.thorough)
-                if not ctx.thorough:
-                    insts = insts[:40]
+                limit = None if is_core(cls) else (400 if ctx.thorough else 40)
+                if limit is not None and len(insts) > limit:
+                    # non-core classes are sampled: the head (base tuples, first pool) plus a random rest
+                    insts = insts[: limit // 2] + ctx.rng.sample(insts[limit // 2:], limit - limit // 2)
+                if is_core(cls):
+                    ctx.count(f"{isa}_core_class_exhaustive_grid")
                 for ins in insts:
                     try:
                         text = str(ins)
